@@ -6,6 +6,10 @@
 cd "$(dirname "$0")"
 mkdir -p ml/gen build/ml evidence replays
 cd coq
+# start from clean build metadata: a dependency file or a compiled file left half-written by an interrupted build
+# (e.g. a snapshot of the directory taken while `make` was running) would otherwise be taken for up to date
+rm -f .Makefile.d .Makefile.d.tmp Makefile Makefile.conf .lia.cache .nia.cache
+find . -maxdepth 1 \( -name '*.vo' -o -name '*.vos' -o -name '*.vok' -o -name '*.glob' \) -size 0 -delete
 coq_makefile -f _CoqProject -o Makefile > /dev/null
 ( ulimit -v 14000000; timeout 5400 make -k -j16 ) 2>&1 | grep -v "^Closed under\|^COQC\|^COQDEP" | tail -15
 cd ..
